@@ -8,6 +8,14 @@ claim("C20",
       "float64 treated as real arithmetic (+Inf as a real constant >= 1e30); int overflow excluded by size preconditions in the contract; "
       "trusted: govc, go/ssa, the SMT solvers.")
 
-for p in ["C01","C02","C03","C04","C05","C06","C07","C08","C09","C10","C12","C13","C14","C15","C16","C17","C18","C19"]:
+claim("C16",
+      "Every BitArray operation (Get/Set/Flip/SetBulk/SetRange/Clear/IsRange/GetNextSet/GetNextUnset/AppendBit/AppendBits/AppendBitArray/Xor/ToBytes/Reverse/"
+      "ensureCapacity/constructors) and the BitMatrix operations Get/Set/Unset/Flip/FlipAll/Clear/SetRegion/GetRow/SetRow/Rotate90/NewBitMatrix are proved against the naive "
+      "boolean-grid view (whole-view postconditions: touched and untouched bits, padding bits zero), for all sizes and widths, with loop invariants and frame conditions. "
+      "Reverse is proved at word level plus a bit-level word lemma. Rotate180, GetEnclosingRectangle, GetTopLeftOnBit, GetBottomRightOnBit and the string forms are not under functional contract yet.",
+      "BitArray functions are verified with exact 64/32-bit vectors; BitMatrix functions in integer mode with the bit theory (wbit axioms) and products of symbolic integers "
+      "uninterpreted except for the separately proved index lemmas (rowIdx, rowIdxInj, rowLast, rowRange, mulBound); int overflow not checked in int mode.")
+
+for p in ["C01","C02","C03","C04","C05","C06","C07","C08","C09","C10","C12","C13","C14","C15","C17","C18","C19"]:
     na(p, NOTYET)
 na("C11", "The library has no Aztec writer: 'conforming symbol' would have to be a hand-written restatement of ISO/IEC 24778 (a model, not the code), and the image-to-bits path is a float-geometry detector; no contract on one call of the real code expresses the property. The Aztec decoder's totality is covered under C06.")
